@@ -168,6 +168,10 @@ def c01(run, replay=None):
                     ts[pos] = failing_slot(fk, pos, ign)
                     cases.append(dict(files=dict(files, **{"main.rh": dict(tasks=ts)}),
                                       desc=dict(skeleton=kinds, failure=dict(position=pos, kind=fk, ignore_errors=ign))))
+    # the same programs given inline on the command line (-s / --script)
+    for c in list(cases[:40:4]):
+        if all(n == "main.rh" or True for n in c["files"]):
+            cases.append(dict(c, inline=("-s" if len(cases) % 2 else "--script"), desc=dict(c["desc"], inline=True)))
     # which values make `when` / `assert` true: every kind of value a variable can hold (empty and non-empty list and
     # mapping, none, 0 and non-zero, booleans, empty and non-empty string), each as a bare `when: v`, negated, and asserted
     for li, L in enumerate(TRUTH_LITS):
